@@ -32,8 +32,17 @@ RULE = ("seeded generator over classes {gaussian with |r| in [0,0.3), [0.3,0.75)
         "arguments being the same objects (nested-list / Fortran-ordered / view covariances, list / tuple means); a rejected "
         "or out-of-quantifier call (malformed covariance, x and y of different lengths, |covariance| > sqrt(var_x var_y)) "
         "between clean calls on the same containers, the next call taking the correlated form; gaussian / uniform / norm_cdf "
-        "interleaved on one mean container with the box size swept and the uniform corners inside the box - every call of a "
-        "history must satisfy the predicate on its own, the first call is repeated at the end}.  One corner per Gaussian case, "
+        "interleaved on one mean container with the box size swept and the uniform corners inside the box; ONE mean object "
+        "interned by value and never rewritten by the caller (float64 ndarray, row / strided column of a 2-D float64 array, "
+        "read-only array, list, tuple) handed to 8 calls: the uniform kernel on three point sets (inside / on the edges / "
+        "straddling the box) and two box sizes, the Gaussian kernel in between, the first two calls again at the end, points as "
+        "plain / strided / read-only arrays - every call of a "
+        "history must satisfy the predicate on its own, the first call is repeated at the end; an in-place slot is edited the "
+        "way a caller edits it: only entries whose value changes are written again}; {long vectors: ONE call with a few more "
+        "points than a typical block size (quick: 4096, 10000, 32768, 65536, 100000, 131072 + 1..101; thorough: 512 .. 262144), "
+        "Gaussian in every regime / zero covariance / uniform / norm_cdf, the 4 corners followed by 3..9 further points "
+        "repeated cyclically (period 7, 11 or 13); per point the smallest and the largest value over all its positions must "
+        "both satisfy the pointwise clauses, so every position is judged}.  One corner per Gaussian case, "
         "every uniform / norm_cdf case is certified inside Coq against the model (1e-9 / exact / 1e-10); the first "
         "Gaussian case(s) of every class and every corpus witness are also certified inside Coq against Plackett's "
         "integral (1e-7); all four corners of every case are checked numerically by the predicate.  A case is non-trivial when a Gaussian corner value lies "
@@ -52,7 +61,9 @@ TRUSTED_BASE = [
     "hand-written model Model/KernelM.v of images_kernels.py (decimal Gauss-Legendre literals as written in the source)",
     "harness: generators, float -> exact-rational printer, SciPy `quad` reference used by the Python predicate; call "
     "histories (harness/history.py: argument objects shared by identity or overwritten in place between calls) are judged "
-    "by the spec predicate only, not by the Coq model",
+    "by the spec predicate only, not by the Coq model; for a long-vector case the implementation runner reduces the "
+    "returned vector to its length, the count of non-finite values and, per distinct point, the minimum and the maximum "
+    "over the positions holding that point (np.argmin / np.argmax), and the Coq certificate covers corner (x2, y2) only",
 ]
 ASSUMPTIONS = [
     "scipy.special.erfc is the complementary error function: norm_cdf is monitored against the RInt definition per run "
@@ -63,6 +74,9 @@ ASSUMPTIONS = [
     "quadrature-error theorem)",
     "independence of a call from earlier calls in the process (no state kept in the module or in argument objects) is "
     "sampled by the call histories, not proved: the Coq model is a pure function of one call's arguments",
+    "independence of a value from the NUMBER and position of the evaluation points of the call is sampled by the long-vector "
+    "cases (lengths up to 131072+101 quick / 262144+101 thorough), not proved: the model and the regenerated obligations read "
+    "the vectorised source one evaluation point at a time",
 ]
 COQ_DEPS = ["Corr/KernelCorr.vo", "Corr/RegenTac.vo"]
 
@@ -219,7 +233,8 @@ def _hist_setup(rng):
     return mu, var
 
 
-HIST_KINDS = ("cov_inplace", "fault", "mu_inplace", "pts_inplace", "cov_inplace", "shared", "fault", "mixed")
+HIST_KINDS = ("cov_inplace", "fault", "mu_inplace", "pts_inplace", "cov_inplace", "shared", "fault", "mixed", "mu_shared")
+MU_SHARED_AS = ("ndarray", "rowview", "ndarray", "colview", "readonly", "list", "rowview", "tuple")
 FAULTS = ("sigma_shape", "len_mismatch", "not_psd")
 
 
@@ -292,6 +307,28 @@ def _history(rng, kind, variant=None):
         if f == "not_psd":      # |covariance| > sqrt(var_x var_y): not a covariance matrix, no claim made
             bad["sigma"] = [b["sigma"][0], rng.choice([-1, 1]) * 1.5 * math.sqrt(b["sigma"][0] * b["sigma"][2]), b["sigma"][2]]
         steps = [a, bad, _with_box(b, a["box"]), dict(a), b]
+    elif kind == "mu_shared":
+        # ONE mean object, interned by value and never rewritten by the caller (a float64 ndarray, a row / strided column
+        # of a 2-D float64 array such as dgm[i, :], a read-only array, a list, a tuple), handed to several calls: the uniform
+        # kernel on different point sets and with the box size swept, the Gaussian kernel in between (product and
+        # correlated form), the first call again at the end.  Any call that edits the caller's point shows in the next.
+        how["mu_as"] = MU_SHARED_AS[variant % len(MU_SHARED_AS)]
+        how["mu_slot"] = False
+        how["pts_as"] = rng.choice(PTS_AS)
+        u1 = _uniform_case(rng, variant % 2 == 0)
+        u1["cls"] = "step"
+        u1["how"] = dict(how)
+        mx, my = u1["mu"]
+        w, h = u1["width"], u1["height"]
+        u1["box"] = [mx - w / 4, mx + w / 4, my - h / 4, my + h / 8]            # strictly inside the box
+        ub = dict(u1, box=[mx - w / 2, mx + w / 8, my - h / 8, my + h / 2])        # on two edges and inside
+        uc = dict(u1, box=[mx - 3 * w / 4, mx - w / 8, my + h / 4, my + 3 * h / 4])  # straddling the box
+        u2 = dict(ub, width=w * 2.0, height=h * 0.5)
+        g1 = _hstep(rng, (mx, my), var, _rho(rng, regs[0]), how=how)
+        g2 = _hstep(rng, (mx, my), var, _rho(rng, regs[1]), how=how)
+        first = [u1, ub] if variant % 3 != 2 else [g1, u1]
+        rest = [g1 if variant % 3 != 2 else ub, uc, u2, g2]
+        steps = first + rest + [dict(first[0]), dict(first[1])]
     else:
         # the kernels interleaved on the same mean / point objects: gaussian, uniform (mean container updated in place,
         # box size swept), norm_cdf
@@ -323,10 +360,86 @@ def _histories(rng, n):
     return hs
 
 
+# ------------------------------------------------------------------------- long vectors (one call)
+# thresholds of typical block sizes; a long case has a few more points than one of them (never a multiple)
+LONG_T = (512, 1024, 4096, 8192, 10000, 16384, 32768, 50000, 65536, 100000, 131072)
+LONG_T_THOROUGH = LONG_T + (200000, 262144)
+LONG_QUICK = (131072, 32768, 65536, 100000, 4096)      # gauss long cases of the quick tier, in this order
+
+
+def _long_n(rng, t=None, tier="quick"):
+    if t is None:
+        t = rng.choice(LONG_T if tier == "quick" else LONG_T_THOROUGH)
+    return t + rng.choice([1, 1, 2, 3, 5, 17, 37, 101])
+
+
+def _make_long(rng, c, n, cls):
+    """ONE call with n evaluation points: the 4 corners of the box followed by m-4 further points, repeated cyclically
+    (position i holds point i mod m, m in {7, 11, 13} is prime to every block size).  The implementation side reports,
+    for every one of the m points, the smallest and the largest value found at its positions: the predicate asks both
+    to satisfy the property, i.e. EVERY position of the long vector is judged, at the cost of m reference values."""
+    m = rng.choice([7, 11, 13])
+    extra = []
+    if c["kind"] == "gauss":
+        mx, my = c["mu"]
+        sx, sy = math.sqrt(c["sigma"][0]), math.sqrt(c["sigma"][2])
+        r = c["sigma"][1] / (sx * sy)
+        for k in range(m - 4):
+            za = rng.gauss(0, 1.5)
+            zb = rng.gauss(0, 1.5) if k % 3 else (za if r >= 0 else -za) + rng.uniform(-0.3, 0.3)
+            extra.append([mx + sx * za, my + sy * zb])
+    elif c["kind"] == "uniform":
+        g = 2.0 ** -6
+        for k in range(m - 4):
+            tx, ty = rng.uniform(-0.75, 0.75), rng.uniform(-0.75, 0.75)
+            x, y = c["mu"][0] + tx * c["width"], c["mu"][1] + ty * c["height"]
+            if c["cls"] == "u_exact":
+                x, y = round(x / g) * g, round(y / g) * g
+            extra.append([x, y])
+    else:
+        extra = [rng.choice([rng.gauss(0, 1), rng.uniform(-9, 9), float(rng.randint(-6, 6))]) for _ in range(m - 1)]
+    d = dict(c)
+    d["cls"] = cls
+    d["long"] = {"n": int(n), "extra": extra}
+    return d
+
+
+def _long_case(rng, what, n):
+    if what == "zero":
+        return _make_long(rng, _zero_case(rng), n, "g_long")
+    if what in ("u_tol", "u_exact"):
+        return _make_long(rng, _uniform_case(rng, what == "u_exact"), n, "u_long")
+    if what == "phi":
+        return _make_long(rng, _phi_case(rng), n, "phi_long")
+    return _make_long(rng, _gauss_case(rng, what, scale=rng.choice(["unit", "vars", "shift"])), n, "g_long")
+
+
+def _long_cases(rng, tier, n_gauss, n_other):
+    out = []
+    regs = ["g_mid3", "g_high", "g_mid6", "g_mid10"]
+    for i in range(n_gauss):
+        t = LONG_QUICK[i % len(LONG_QUICK)] if tier == "quick" else None
+        out.append(_long_case(rng, regs[i % 4], _long_n(rng, t, tier)))
+    for i in range(n_other):
+        t = (65536, 32768, 10000, 131072)[i % 4] if tier == "quick" else None
+        out.append(_long_case(rng, ("zero", "u_tol", "phi", "u_exact")[i % 4], _long_n(rng, t, tier)))
+    return out
+
+
+def _long_points(c):
+    """the m distinct points of a long case: [(x, y)] (gauss / uniform) or [x] (norm_cdf)"""
+    if c["kind"] == "phi":
+        return [c["x"]] + list(c["long"]["extra"])
+    xs, ys = _corners(c["box"])
+    return list(zip(xs, ys)) + [tuple(p) for p in c["long"]["extra"]]
+
+
+
 _TIER = {"tier": "quick"}
 # (quick, thorough) case counts per class; quick is sized for <= ~90 s wall on 16 cores
 COUNTS = {"g_high": (4, 100), "g_mid3": (3, 70), "g_mid6": (4, 90), "g_mid10": (4, 90), "g_zero": (3, 60),
-          "g_tail": (4, 80), "g_xtail": (2, 40), "g_smallvar": (4, 80), "g_tiny": (3, 60), "u_exact": (8, 140), "u_tol": (4, 70), "normcdf": (4, 70), "hist": (16, 320)}
+          "g_tail": (4, 80), "g_xtail": (2, 40), "g_smallvar": (4, 80), "g_tiny": (3, 60), "u_exact": (8, 140), "u_tol": (4, 70), "normcdf": (4, 70), "hist": (18, 360),
+          "g_long": (5, 40), "x_long": (4, 24)}
 MID = ["g_mid3", "g_mid6", "g_mid10"]
 
 
@@ -356,15 +469,18 @@ def generate(rng, tier):
         cases.append(_uniform_case(rng, False))
     for _ in range(n["normcdf"]):
         cases.append(_phi_case(rng))
-    return cases + _histories(rng, n["hist"])
+    return cases + _long_cases(rng, tier, n["g_long"], n["x_long"]) + _histories(rng, n["hist"])
 
 
 def search_generate(rng, n):
     out = []
     for i in range(n):
         t = i % 10
-        if i % 40 == 5:
-            out.append(_history(rng, HIST_KINDS[(i // 40) % len(HIST_KINDS)]))
+        if i % 8 == 5:          # call histories in volume: every kind once per 72 cases, the variants at random
+            out.append(_history(rng, HIST_KINDS[(i // 8) % len(HIST_KINDS)]))
+        elif i % 25 == 17:      # long vectors: mostly correlated Gaussian, mostly above the larger thresholds
+            what = (MID + ["g_high", "u_tol", "zero", "g_mid10", "g_mid6", "u_exact", "g_high", "phi", "u_tol"])[(i // 25) % 12]
+            out.append(_long_case(rng, what, _long_n(rng, None if rng.random() < 0.4 else rng.choice(LONG_T[-4:]))))
         elif t < 4:
             out.append(_gauss_case(rng, "g_high"))
         elif t < 7:
@@ -410,8 +526,14 @@ def _corners(box):
 #   *_slot   : True = ONE container per history (kept in memo) that is OVERWRITTEN IN PLACE with this step's values
 #              before the call (a caller sweeping a parameter by editing kernel_params['sigma'][i][j], a reused
 #              pixel-corner buffer); False = interned by value, i.e. equal values of different steps are THE SAME object
+#   mu_as    : also "rowview" (row of a 2-D float64 array, the form of dgm[i, :]), "colview" (strided column),
+#              "readonly" (float64 ndarray with the WRITEABLE flag off, e.g. the result of np.broadcast_to / a frozen input)
+#   pts_as   : "ndarray" | "strided" (every other element of a longer buffer) | "readonly"
+# A slot is edited the way a caller edits it: only the entries whose value differs from what the caller wrote last are
+# written again, so whatever a call did to the other entries stays visible to the next call.
 SIGMA_AS = ("ndarray", "list", "forder", "view")
-MU_AS = ("ndarray", "list", "tuple")
+MU_AS = ("ndarray", "list", "tuple", "rowview", "colview")
+PTS_AS = ("ndarray", "ndarray", "strided", "readonly")
 
 
 def _sigma_obj(np, memo, c):
@@ -435,9 +557,12 @@ def _sigma_obj(np, memo, c):
         return np.array(rows, dtype=float)
     if how.get("sigma_slot"):
         obj = history.intern(memo, ["slot", "sigma", kind], build)
+        last = history.intern(memo, ["last", "sigma", kind], lambda: [list(rows[0]), list(rows[1])])
         for i in range(2):
             for j in range(2):
-                obj[i][j] = rows[i][j]               # in place, list and ndarray alike
+                if last[i][j] != rows[i][j]:
+                    obj[i][j] = rows[i][j]           # in place, list and ndarray alike; untouched entries stay as they are
+                    last[i][j] = rows[i][j]
         return obj
     return history.intern(memo, ["val", "sigma", kind, rows], build)
 
@@ -446,10 +571,22 @@ def _mu_obj(np, memo, c):
     how = c.get("how") or {}
     kind = how.get("mu_as", "ndarray")
     mx, my = c["mu"]
-    build = {"list": lambda: [mx, my], "tuple": lambda: (mx, my)}.get(kind, lambda: np.array([mx, my], dtype=float))
-    if how.get("mu_slot") and kind != "tuple":
+
+    def ro():
+        a = np.array([mx, my], dtype=float)
+        a.flags.writeable = False
+        return a
+    build = {"list": lambda: [mx, my], "tuple": lambda: (mx, my),
+             "rowview": lambda: np.array([[9.5, -3.25], [mx, my], [0.125, 7.0]], dtype=float)[1, :],
+             "colview": lambda: np.array([[9.5, mx, -3.25], [0.125, my, 7.0]], dtype=float)[:, 1],
+             "readonly": ro}.get(kind, lambda: np.array([mx, my], dtype=float))
+    if how.get("mu_slot") and kind not in ("tuple", "readonly"):
         obj = history.intern(memo, ["slot", "mu", kind], build)
-        obj[0], obj[1] = mx, my
+        last = history.intern(memo, ["last", "mu", kind], lambda: [mx, my])
+        for i, t in enumerate((mx, my)):
+            if last[i] != t:
+                obj[i] = t                           # only the coordinate that changed is written again
+                last[i] = t
         return obj
     return history.intern(memo, ["val", "mu", kind, [mx, my]], build)
 
@@ -463,8 +600,19 @@ def _pts_obj(np, memo, c):
         x[:] = xs
         y[:] = ys
     else:
-        x = history.intern(memo, ["val", "x", xs], lambda: np.array(xs, dtype=float))
-        y = history.intern(memo, ["val", "y", ys], lambda: np.array(ys, dtype=float))
+        kind = how.get("pts_as", "ndarray")
+
+        def mk(vs):
+            if kind == "strided":
+                big = np.full(2 * len(vs) + 1, -11.0)
+                big[1::2] = vs
+                return big[1::2]
+            a = np.array(vs, dtype=float)
+            if kind == "readonly":
+                a.flags.writeable = False
+            return a
+        x = history.intern(memo, ["val", "x", kind, xs], lambda: mk(xs))
+        y = history.intern(memo, ["val", "y", kind, ys], lambda: mk(ys))
     if c.get("fault") == "len_mismatch":         # x and y of different lengths: expected to be rejected
         y = np.array(ys[:3], dtype=float)
     return x, y
@@ -476,7 +624,40 @@ def impl_call(c, memo):
     import numpy as np
     from persim import images_kernels as K
 
+    def summary(v, n, m):
+        """a long call: the first values as usual + per point (i mod m) the extreme values over all its positions"""
+        v = np.asarray(v, dtype=float).ravel()
+        lo, hi, at_lo, at_hi = [], [], [], []
+        for j in range(m):
+            part = v[j::m]
+            if part.size == 0:
+                lo.append(None); hi.append(None); at_lo.append(None); at_hi.append(None)
+                continue
+            a, b = int(np.argmin(part)), int(np.argmax(part))     # NaN wins both: it is reported as the extreme
+            lo.append(float(part[a])); hi.append(float(part[b]))
+            at_lo.append(j + a * m); at_hi.append(j + b * m)
+        return {"n": int(v.size), "lo": lo, "hi": hi, "at_lo": at_lo, "at_hi": at_hi,
+                "nonfinite": int(np.count_nonzero(~np.isfinite(v)))}
+
+    def long_call():
+        pts = _long_points(c)
+        n, m = c["long"]["n"], len(pts)
+        if c["kind"] == "phi":
+            v = K.norm_cdf(np.resize(np.array(pts, dtype=float), n))
+            k = 1
+        else:
+            x = np.resize(np.array([q[0] for q in pts], dtype=float), n)
+            y = np.resize(np.array([q[1] for q in pts], dtype=float), n)
+            if c["kind"] == "gauss":
+                v = K.gaussian(x, y, mu=_mu_obj(np, memo, c), sigma=_sigma_obj(np, memo, c))
+            else:
+                v = K.uniform(x, y, mu=_mu_obj(np, memo, c), width=c["width"], height=c["height"])
+            k = 4
+        return {"vals": [float(t) for t in np.asarray(v, dtype=float).ravel()[:k]], "long": summary(v, n, m)}
+
     def call():
+        if c.get("long"):
+            return long_call()
         if c["kind"] == "gauss":
             x, y = _pts_obj(np, memo, c)
             v = K.gaussian(x, y, mu=_mu_obj(np, memo, c), sigma=_sigma_obj(np, memo, c))
@@ -544,6 +725,63 @@ def _box_cdf(c, x, y):
     return seg(mx - w / 2, mx + w / 2, x) * seg(my - h / 2, my + h / 2, y) / (w * h)
 
 
+def _point_check(c, pt, v, memo=None):
+    """the pointwise clauses of the property for ONE value v of the kernel at the point pt; None = satisfied"""
+    if c["kind"] == "phi":
+        want = _phi(pt)
+        if abs(v - want) > 1e-12:
+            return "normcdf: norm_cdf(%r) = %r, normal CDF = %r" % (pt, v, want)
+        return None
+    x, y = pt
+    if c["kind"] == "uniform":
+        want = _box_cdf(c, x, y)
+        if abs(Fraction(v) - want) > Fraction(1, 10 ** 12):
+            return "uniform: value %r at (%r,%r), box CDF = %r" % (v, x, y, float(want))
+        return None
+    a, b, r = _std(c, x, y)
+    if memo is not None and "want" in memo:
+        want = memo["want"]
+    else:
+        want = bvn_reference(a, b, r)
+        if memo is not None:
+            memo["want"] = want
+    if abs(v - want) > ACC:
+        return "accuracy: value %r at (%r,%r), reference bivariate normal CDF %r (r=%r)" % (v, x, y, want, r)
+    if c["sigma"][1] == 0.0 and abs(v - _phi(a) * _phi(b)) > 1e-12:
+        return "product: value %r is not Phi*Phi = %r" % (v, _phi(a) * _phi(b))
+    if (a <= -37.5 or b <= -37.5) and v > ROUND:
+        return "tail0: value %r at standardised (%r,%r) should vanish" % (v, a, b)
+    if a >= 37.5 and b >= 37.5 and v < 1 - ROUND:
+        return "tail1: value %r at standardised (%r,%r) should be 1" % (v, a, b)
+    return None
+
+
+def _long_check(c, o):
+    lg = o.get("long")
+    n = c["long"]["n"]
+    if not isinstance(lg, dict):
+        return "shape: no summary of the long call in %r" % (o,)
+    if lg.get("n") != n:
+        return "shape: %r values for %d points in one call" % (lg.get("n"), n)
+    if lg.get("nonfinite"):
+        return "nan: %d non-finite kernel values among %d points in one call" % (lg["nonfinite"], n)
+    pts = _long_points(c)
+    for j, pt in enumerate(pts):
+        memo = {}
+        for v, at in ((lg["lo"][j], lg["at_lo"][j]), (lg["hi"][j], lg["at_hi"][j])):
+            if v is None:
+                continue
+            if not (v == v) or abs(v) == float("inf"):
+                return "nan: non-finite kernel value at position %d of %d" % (at, n)
+            if c["kind"] != "phi" and not (-ROUND <= v <= 1 + ROUND):
+                return "range: kernel value %r outside [0,1] at position %d of %d" % (v, at, n)
+            bad = _point_check(c, pt, v, memo)
+            if bad:
+                key, rest = bad.split(":", 1)
+                return "%s: at position %d of %d points in one call:%s" % (key, at, n, rest)
+    return None
+
+
 def predicate(c, o):
     if history.is_hist(c):      # every call of the history must satisfy the property on its own
         return history.predicate(c, o, predicate)
@@ -552,34 +790,23 @@ def predicate(c, o):
     vals = o["vals"]
     if any(not (v == v) or abs(v) == float("inf") for v in vals):
         return False, "nan: non-finite kernel value %s" % vals
+    if c.get("long"):           # one call on a long vector: every position is judged through the extremes per point
+        bad = _long_check(c, o)
+        if bad:
+            return False, bad
     if c["kind"] == "phi":
-        want = _phi(c["x"])
-        if abs(vals[0] - want) > 1e-12:
-            return False, "normcdf: norm_cdf(%r) = %r, normal CDF = %r" % (c["x"], vals[0], want)
-        return True, ""
+        bad = _point_check(c, c["x"], vals[0])
+        return (False, bad) if bad else (True, "")
     xs, ys = _corners(c["box"])
     if len(vals) != 4:
         return False, "shape: %d values for 4 points" % len(vals)
     for v in vals:
         if not (-ROUND <= v <= 1 + ROUND):
             return False, "range: kernel value %r outside [0,1]" % v
-    if c["kind"] == "uniform":
-        for x, y, v in zip(xs, ys, vals):
-            want = _box_cdf(c, x, y)
-            if abs(Fraction(v) - want) > Fraction(1, 10 ** 12):
-                return False, "uniform: value %r at (%r,%r), box CDF = %r" % (v, x, y, float(want))
-    else:
-        for x, y, v in zip(xs, ys, vals):
-            a, b, r = _std(c, x, y)
-            want = bvn_reference(a, b, r)
-            if abs(v - want) > ACC:
-                return False, "accuracy: value %r at (%r,%r), reference bivariate normal CDF %r (r=%r)" % (v, x, y, want, r)
-            if c["sigma"][1] == 0.0 and abs(v - _phi(a) * _phi(b)) > 1e-12:
-                return False, "product: value %r is not Phi*Phi = %r" % (v, _phi(a) * _phi(b))
-            if (a <= -37.5 or b <= -37.5) and v > ROUND:
-                return False, "tail0: value %r at standardised (%r,%r) should vanish" % (v, a, b)
-            if a >= 37.5 and b >= 37.5 and v < 1 - ROUND:
-                return False, "tail1: value %r at standardised (%r,%r) should be 1" % (v, a, b)
+    for x, y, v in zip(xs, ys, vals):
+        bad = _point_check(c, (x, y), v)
+        if bad:
+            return False, bad
     v11, v21, v12, v22 = vals
     if v21 < v11 - MONO or v22 < v12 - MONO:
         return False, "mono_x: not non-decreasing in x: %s" % vals
@@ -819,6 +1046,21 @@ def shrink_candidates(c):
     if history.is_hist(c):
         yield from history.shrink(c)
         return
+    if c.get("long"):
+        d = {k: v for k, v in c.items() if k != "long"}      # not an effect of the length at all
+        yield d
+        n, ex = c["long"]["n"], c["long"]["extra"]
+        m = (1 if c["kind"] == "phi" else 4) + len(ex)
+        k = 1
+        while 2 * k + 1 < n:
+            k *= 2
+        for n2 in (n // 2, (3 * n) // 4, (7 * n) // 8, k + 1):   # towards the smallest failing length
+            if m < n2 < n:
+                yield dict(c, long={"n": n2, "extra": ex})
+        if ex:
+            yield dict(c, long={"n": n, "extra": []})
+        if c["kind"] == "phi":
+            return
     if c["kind"] == "gauss":
         x1, x2, y1, y2 = c["box"]
         if (x1, y1) != (x2, y2):
